@@ -186,6 +186,10 @@ class ISD(model.Document):
 
   def _region_always_has_background(region: typing.Type[model.Region]) -> bool:
 
+    if next(region.iter_animation_steps(), None) is not None:
+      # animation can make the background visible at any time: be conservative
+      return True
+
     if region.get_style(styles.StyleProperties.Opacity) == 0:
       return False
 
